@@ -6,7 +6,7 @@
     about extrema FAIL on the library (known finding K-C08-1), so no theorem is stated there. *)
 From Coq Require Import Reals ZArith List.
 From Coquelicot Require Import Coquelicot.
-From LP Require Import Num NumR C01_Model C01_Proofs C08_Model C08_Proofs.
+From LP Require Import Num NumR C01_Model C01_Proofs C08_Model C08_Proofs C08_Proofs_Ctor.
 Import ListNotations.
 Local Open Scope R_scope.
 
@@ -128,3 +128,17 @@ Theorem C08_global_extrema_2d xs ys f : valid_grid xs ys f -> forall c,
     (exists i j, (i < length xs)%nat /\ (j < length ys)%nat /\ interpolate2 ROps (pgrid c xs ys f) (nth i xs 0) (nth j ys 0) = Ok mx).
 Proof. exact (global_extrema2_spec xs ys f). Qed.
 Print Assumptions C08_global_extrema_2d.
+
+(** "all tables as in C01": the objects made by the default constructors Interpolation() and Interpolation_2D() are the
+    [tab] / [grid] objects of a valid (all-zero) table, so every theorem above holds for them as well (the constructor from
+    lists is C01_construct_ok / C01 construct2_ok; the 2-D constructor from a data table is tied by correspondence only). *)
+Theorem C08_default_object :
+  construct_default ROps = Ok (tab [-1; 0; 1] [0; 0; 0]) /\ valid_table [-1; 0; 1] [0; 0; 0].
+Proof. exact construct_default_ok. Qed.
+Print Assumptions C08_default_object.
+
+Theorem C08_default_object_2d :
+  construct2_default ROps = Ok (grid [-1; 0; 1] [-1; 0; 1] [[0; 0; 0]; [0; 0; 0]; [0; 0; 0]])
+  /\ valid_grid [-1; 0; 1] [-1; 0; 1] [[0; 0; 0]; [0; 0; 0]; [0; 0; 0]].
+Proof. exact construct2_default_ok. Qed.
+Print Assumptions C08_default_object_2d.
